@@ -175,6 +175,15 @@ func Vals(key uint16, shape, n int, seed uint64) []uint32 {
 				out = append(out, uint32(v))
 			}
 		}
+	case 6: // runs of three or four values: the cheapest encoding is runs, but only just
+		pos := uint32(r.Intn(200))
+		for len(out) < n && pos < 65500 {
+			l := uint32(3 + r.Intn(2))
+			for j := uint32(0); j < l; j++ {
+				out = append(out, base|(pos+j))
+			}
+			pos += l + 2 + uint32(r.Intn(40))
+		}
 	case 5: // top of the chunk downwards
 		for i := 0; i < n && i < 65536; i++ {
 			out = append(out, base|uint32(65535-i))
@@ -185,7 +194,7 @@ func Vals(key uint16, shape, n int, seed uint64) []uint32 {
 	return out
 }
 
-const numShapes = 6
+const numShapes = 7
 
 func (w *World) slot(r *Rng) int { return r.Intn(len(w.B)) }
 
